@@ -62,6 +62,24 @@ class C02(Check):
                                  "secs": [{"union": True, "hdr": None, "items": vs, "seal": "sealed"}]})
             root["defs"].append({"name": rn + ".ApxUHost", "ver": [1, 0], "port": None, "ext": "dsdl", "dep": False,
                                  "secs": [{"union": False, "hdr": None, "items": [["f", ["ref", rn + ".ApxU", 1, 0], "sample"], ["f", ["u", 16, "s"], "status"], ["f", ["arr", ["ref", rn + ".ApxU", 1, 0], 2], "pair"], ["f", ["u", 3, "s"], "z"]], "seal": "sealed"}]})
+        if rng.random() < 0.25 and not ({(rn + ".Long").lower(), (rn + ".LongPart").lower()} & used):
+            # a structure with many fields (around and beyond 64, 128): mostly sub-byte primitives and padding, so that hardly any
+            # field starts on a byte boundary, with nested composites / arrays of composites at scattered positions, late ones included
+            root["defs"].append({"name": rn + ".LongPart", "ver": [1, 0], "port": None, "ext": "dsdl", "dep": False,
+                                 "secs": [{"union": False, "hdr": None, "items": [["f", ["u", 8, "s"], "a"], ["f", ["u", 3, "s"], "b"]], "seal": "sealed"}]})
+            pref = ["ref", rn + ".LongPart", 1, 0]
+            nf = rng.choice([62, 63, 64, 65, 66, 70, 96, 127, 128, 129, 130, 160, 200])
+            comp_at = set(rng.sample(range(nf), rng.randint(2, 6))) | {nf - 1 - rng.randrange(3), min(nf - 1, 64 + rng.randrange(4))}
+            litems = []
+            for i in range(nf):
+                if i in comp_at:
+                    litems.append(["f", rng.choice([pref, ["arr", pref, 2], ["var", pref, 2], ["var", ["u", 8, "s"], 2]]), "c%d" % i])
+                elif rng.random() < 0.15:
+                    litems.append(["p", rng.choice([1, 2, 3, 5, 7])])
+                else:
+                    litems.append(["f", rng.choice([["bool"], ["u", 1, "s"], ["u", 3, "t"], ["u", 5, "s"], ["i", 7, "s"], ["u", 2, "s"], ["u", 9, "t"]]), "s%d" % i])
+            root["defs"].append({"name": rn + ".Long", "ver": [1, 0], "port": None, "ext": "dsdl", "dep": False,
+                                 "secs": [{"union": False, "hdr": None, "items": litems, "seal": "sealed" if rng.random() < 0.7 else 8 * 4096}]})
         nv = rng.choice(VARIANTS)
         if (rn + ".Tag").lower() not in used:
             vitems = [["f", rng.choice([["bool"], ["u", 8, "s"], ["u", 13, "t"], ["var", ["u", 8, "s"], 2]]), "v%d" % i] for i in range(nv)]
